@@ -110,6 +110,11 @@ func get(v interface{}, path string, collect, compact bool) (interface{}, bool) 
 	return Missing, false
 }
 
+// maxArrayBackfill is the maximum number of null elements Put appends to an
+// array to reach an index beyond its end (MongoDB refuses to backfill more than
+// 1500000 elements as well).
+const maxArrayBackfill = 1500000
+
 // Put will store the value in the document at the location specified by path
 // and return the previously stored value. It will automatically create document
 // fields, array elements and embedded documents to fulfill the request. If
@@ -227,6 +232,11 @@ func put(v interface{}, path string, value interface{}, prepend bool, set func(i
 
 		// check if unset
 		if value == Missing {
+			return Missing, false
+		}
+
+		// limit the number of padded elements
+		if index-len(arr) > maxArrayBackfill {
 			return Missing, false
 		}
 
